@@ -455,6 +455,7 @@ pub fn forest_gen_cfg(rng: &mut Rng) -> GenCfg {
     cfg.fragment = rng.chance(1, 3);
     cfg.top_misc = rng.chance(1, 3);
     cfg.xml_space = rng.chance(1, 6);
+    cfg.xml_id = rng.chance(1, 4);
     // isolated empty text nodes (new_text("") / text_mut().set("")) are legal trees too
     cfg.allow_empty_text = rng.chance(1, 3);
     cfg
@@ -523,7 +524,7 @@ impl Forest {
                 },
             };
             let route = *rng.pick(&build::ROUTES);
-            let style = *rng.pick(&[AttrStyle::Map, AttrStyle::Node, AttrStyle::Any]);
+            let style = *rng.pick(&crate::build::STYLES);
             f.add_tree(&a, route, style)?;
         }
         Ok(f)
